@@ -22,6 +22,7 @@ CONSTANTS Reqs,                 \* request ids
           D_LazyFallbackInit,   \* F6: r.noRoute is assigned on first use, inside the request
           D_EarlyPut,           \* deviation: the context goes back to the pool before the chain has finished
           D_PutBeforeHook,      \* deviation: after a panic the context is released before the OnPanic hook has run
+          D_HookPathPuts,       \* deviation: the recover path releases the context after the hook AND ServeHTTP releases it again
           D_RedispatchPuts      \* F23: Router.HandleContext puts the context into the pool although the request that
                                 \*      re-dispatched is still using it (and ServeHTTP will put it a second time)
 
@@ -152,7 +153,8 @@ Boundary(r) ==
      THEN \* the main handler panicked: handleHTTPRequest recovers and runs r.OnPanic(ctx) on the same context
           /\ log' = [log EXCEPT ![r] = Append(@, Hook)]
           /\ pos' = [pos EXCEPT ![r] = @ + 1]
-          /\ UNCHANGED <<pc, pool, writers, readers, tk, phase>>
+          /\ IF D_HookPathPuts THEN Put(ctx[r]) ELSE UNCHANGED pool
+          /\ UNCHANGED <<pc, writers, readers, tk, phase>>
      ELSE IF Redisp(r) /\ phase[r] = 0
      THEN \* the main handler of "rd" has logged and calls HandleContext: Reset, then resolve + assemble again (Start)
           /\ pc' = [pc EXCEPT ![r] = "start"] /\ tk' = [tk EXCEPT ![r] = "a"] /\ phase' = [phase EXCEPT ![r] = 1]
